@@ -1,4 +1,4 @@
 #!/bin/bash
 # the tests/cascade suite is shadowed by an unrelated site-packages 'cascade' in the pinned baseline (always_fail there);
-# with /repo/src first it runs: expected "1 failed, 11 passed" (gateway test_job fails on the pristine tree too)
+# with /repo/src first it runs: expected "2 failed, 10 passed": gateway test_job fails on the pristine tree too; executor test_executor crashes the data server on purpose and asserts the executor stays silent about it, which the healthcheck fix (F17) changes
 cd /repo && PYTHONPATH=/repo/src timeout 900 /venv/bin/python -m pytest tests/cascade -q -p no:cacheprovider --timeout=300 2>&1 | grep -E "^=+ .*(passed|failed)" | tail -2
